@@ -94,23 +94,23 @@ type queuedTx struct {
 }
 
 type sim struct {
-	c    *chain.Chain
-	r    *fw.Recorder
-	rng  *rand.Rand
-	p    plan
-	vals []*val
+	c              *chain.Chain
+	r              *fw.Recorder
+	rng            *rand.Rand
+	p              plan
+	vals           []*val
 	whale, govUser *chain.Account
 
-	queued   []queuedTx
-	seqUsed  map[string]uint64
-	minStr   string
-	minVer   ver
-	govStage int
-	govPid   uint64
-	govWant  string
-	whaleDel map[string]int64 // whale delegation per validator (ugrain), model of what it did
-	events   []string
-	fail     bool
+	queued     []queuedTx
+	seqUsed    map[string]uint64
+	minStr     string
+	minVer     ver
+	govStage   int
+	govPid     uint64
+	govWant    string
+	whaleDel   map[string]int64 // whale delegation per validator (ugrain), model of what it did
+	events     []string
+	fail       bool
 	govStartAt int64
 }
 
@@ -249,26 +249,26 @@ func (s *sim) versionAround() string {
 	m := s.minVer
 	mk := func(a, b, c string) string { return "v" + a + "." + b + "." + c }
 	cands := []string{
-		mk(m.major, m.minor, m.patch),                      // equal
-		mk(m.major, m.minor, bump(m.patch, 1)),             // newer patch
-		mk(m.major, m.minor, bump(m.patch, -1)),            // older patch (or equal at .0)
-		mk(m.major, bump(m.minor, 1), "0"),                 // newer minor
-		mk(m.major, bump(m.minor, -1), "99"),               // older minor, big patch
-		mk(bump(m.major, 1), "0", "0"),                     // newer major
-		mk(bump(m.major, -1), "999", "999"),                // older major
-		mk(m.major, m.minor, m.patch) + "-rc1",             // pre-release of the minimum: older
-		mk(m.major, m.minor, m.patch) + "-alpha.1",         // older
-		mk(m.major, m.minor, bump(m.patch, 1)) + "-rc.1",   // pre-release of the next patch: newer
-		mk(m.major, m.minor, m.patch) + "+build.7",         // build metadata: equal
-		mk(m.major, m.minor, bump(m.patch, -1)) + "+zzz",   // older with build metadata
-		mk(m.major, "9", "0"),                              // lexical trap (v1.9.0 vs v1.11.3)
-		mk(m.major, m.minor+"0", "0"),                      // v1.110.0: newer, lexically "smaller" in places
-		mk(m.major, m.minor, "10"),                         // patch 10 vs patch 3
+		mk(m.major, m.minor, m.patch),                    // equal
+		mk(m.major, m.minor, bump(m.patch, 1)),           // newer patch
+		mk(m.major, m.minor, bump(m.patch, -1)),          // older patch (or equal at .0)
+		mk(m.major, bump(m.minor, 1), "0"),               // newer minor
+		mk(m.major, bump(m.minor, -1), "99"),             // older minor, big patch
+		mk(bump(m.major, 1), "0", "0"),                   // newer major
+		mk(bump(m.major, -1), "999", "999"),              // older major
+		mk(m.major, m.minor, m.patch) + "-rc1",           // pre-release of the minimum: older
+		mk(m.major, m.minor, m.patch) + "-alpha.1",       // older
+		mk(m.major, m.minor, bump(m.patch, 1)) + "-rc.1", // pre-release of the next patch: newer
+		mk(m.major, m.minor, m.patch) + "+build.7",       // build metadata: equal
+		mk(m.major, m.minor, bump(m.patch, -1)) + "+zzz", // older with build metadata
+		mk(m.major, "9", "0"),                            // lexical trap (v1.9.0 vs v1.11.3)
+		mk(m.major, m.minor+"0", "0"),                    // v1.110.0: newer, lexically "smaller" in places
+		mk(m.major, m.minor, "10"),                       // patch 10 vs patch 3
 		mk(m.major, m.minor, "2"),
 		goodVersion,
 		"", "latest", strings.TrimPrefix(mk(m.major, m.minor, m.patch), "v"), // no v prefix
 		"v" + m.major, "v" + m.major + "." + m.minor, // short forms
-		mk("0"+m.major, m.minor, m.patch),            // leading zero: not a version
+		mk("0"+m.major, m.minor, m.patch), // leading zero: not a version
 		mk(m.major, m.minor, m.patch) + ".1",
 		"v" + m.major + "." + m.minor + "." + m.patch + "-",
 	}
@@ -996,7 +996,7 @@ func runHistory(c fw.Case, tier string, rec *fw.Recorder) {
 	// a compact description of the history for the evidence file
 	type vsum struct {
 		Name, Class, Policy, Addr string
-		Jailings                 int
+		Jailings                  int
 	}
 	var vs []vsum
 	hist := []string{}
